@@ -22,6 +22,7 @@ func checkC07(p *Prog, r *Report) {
 	r.rule("C07.collection-detection: the to-one/to-many question for a relationship URL is answered by the relationship named by the last fragment, looked up in the type named by the first fragment")
 	r.rule("C07.fields-default: every write to params.Fields outside the defaulting loop (which replaces an empty selection by all fields of the type) is followed by that loop on every path to the successful return")
 	r.rule("C07.fields-fresh: a list stored into Params.Fields inside a loop traces back (through append, reslice, merges) to an allocation made inside that loop or to the entry's own previous value, never to a slice carried over from the previous type")
+	r.rule("C07.fields-dup-check: the duplicate-field error of NewParams is guarded by a test on elements of the very list stored in Params.Fields (two of its elements equal, or a per-element occurrence count of it above one)")
 	r.rule("C07.sort-name-tests: in the loop over the caller's sorting rules the comparison with \"id\" and the comparisons with the attribute names are applied to one and the same value (the rule stripped of its dash), so every valid rule is kept")
 	r.rule("C07.member-append: in NewParams every string appended to a result list is a constant, or is guarded by an equality with \"id\", with an attribute name of the schema type, or with an element of Type.Fields(), or comes from a list built that way")
 	r.rule("C07.include-chain: wherever the type for the next word of an inclusion path is looked up from <rel>.ToType, the same loop stores into <rel> the relationship found in the current type's Rels map, on a path back to that lookup (the walk advances along the chain of relationships)")
@@ -75,6 +76,7 @@ func checkC07(p *Prog, r *Report) {
 	checkSortNameTests(p, r, np)
 	checkFieldsDefault(p, r, "C07")
 	checkFieldsFresh(p, r, "C07")
+	checkFieldsDupCheck(p, r, "C07")
 	checkCollectionDetection(p, r, np)
 	checkIDTotal(p, r, np)
 	checkURLTypeExists(p, r)
@@ -1297,4 +1299,114 @@ func compactionSource(v ssa.Value, depth int) ssa.Value {
 		}
 	}
 	return nil
+}
+
+// checkFieldsDupCheck implements C07.fields-dup-check: the duplicate-field
+// error of NewParams is raised by a test on the elements of the list that is
+// stored in Params.Fields - two elements of it compared with each other, or an
+// occurrence count kept per element of it and read back for an element of it.
+func checkFieldsDupCheck(p *Prog, r *Report, prefix string) {
+	f := p.Fn("NewParams")
+	if f == nil {
+		return
+	}
+	isParamsFields := func(m ssa.Value) bool {
+		base, fl, ok := fieldLoad(m)
+		return ok && fl == "Fields" && strings.HasSuffix(typeStr(deref(base.Type())), "Params")
+	}
+	// the lists stored into Params.Fields
+	var stored []ssa.Value
+	scope := append([]*ssa.Function{f}, stringHelpers(f)...)
+	eachInstrOf(scope, func(ins ssa.Instruction) {
+		if mu, ok := ins.(*ssa.MapUpdate); ok && isParamsFields(mu.Map) {
+			stored = append(stored, mu.Value)
+		}
+	})
+	isStored := func(l ssa.Value) bool {
+		l = stripValue(l)
+		if lk, ok := l.(*ssa.Lookup); ok && isParamsFields(lk.X) {
+			return true
+		}
+		if ex, ok := l.(*ssa.Extract); ok {
+			if lk, ok := ex.Tuple.(*ssa.Lookup); ok && isParamsFields(lk.X) {
+				return true
+			}
+		}
+		for _, s := range stored {
+			if sameListVar(stripValue(s), l) || sameListVar(l, stripValue(s)) {
+				return true
+			}
+		}
+		return false
+	}
+	elemList := func(v ssa.Value) ssa.Value {
+		ld, ok := v.(*ssa.UnOp)
+		if !ok || ld.Op != token.MUL {
+			return nil
+		}
+		ia, ok := ld.X.(*ssa.IndexAddr)
+		if !ok {
+			return nil
+		}
+		return ia.X
+	}
+	n := 0
+	eachInstrOf(scope, func(ins ssa.Instruction) {
+		c, ok := ins.(*ssa.Call)
+		if !ok || c.Common().StaticCallee() == nil || c.Common().StaticCallee().Name() != "NewErrDuplicateFieldInFieldsParameter" {
+			return
+		}
+		n++
+		good := false
+		for _, ef := range expandFacts(factsAt(c.Block())) {
+			bo, ok := ef.Cond.(*ssa.BinOp)
+			if !ok {
+				continue
+			}
+			op := bo.Op
+			if !ef.Truth {
+				op = negateCmp(op)
+			}
+			// (a) two elements of the stored list are equal
+			if op == token.EQL {
+				la, lb := elemList(bo.X), elemList(bo.Y)
+				if la != nil && lb != nil && isStored(la) && isStored(lb) {
+					good = true
+				}
+			}
+			// (b) the count kept for an element of the stored list exceeds one
+			if op == token.GTR || op == token.GEQ {
+				lkv := bo.X
+				if ex, ok := lkv.(*ssa.Extract); ok {
+					lkv = ex.Tuple
+				}
+				lk, ok := lkv.(*ssa.Lookup)
+				if !ok {
+					continue
+				}
+				kl := elemList(lk.Index)
+				mk, isMk := lk.X.(*ssa.MakeMap)
+				if kl == nil || !isMk || !isStored(kl) {
+					continue
+				}
+				counted := true
+				nUpd := 0
+				for _, ref := range referrers(mk) {
+					if mu, ok := ref.(*ssa.MapUpdate); ok {
+						nUpd++
+						ul := elemList(mu.Key)
+						if ul == nil || !isStored(ul) {
+							counted = false
+						}
+					}
+				}
+				if counted && nUpd > 0 {
+					good = true
+				}
+			}
+		}
+		r.decide(good, prefix+".fields-dup-check", "NewParams:"+p.describe(c), p.pos(c.Pos()), "the duplicate test is made on the elements of the list stored in Params.Fields",
+			"the duplicate-field error is not raised by a test over the elements of the list that is stored as the type's field selection (another list is scanned): a repeated name (\"id\", say) can stay in the selection")
+	})
+	r.floor("duplicate-field error sites in NewParams", n, 1)
 }
